@@ -1876,6 +1876,17 @@ where
                             if ann.node == *remote {
                                 continue;
                             }
+                            // Don't send refs announcements of repositories the remote isn't
+                            // allowed to see, just like when relaying.
+                            if let AnnouncementMessage::Refs(RefsAnnouncement { rid, .. }) =
+                                &ann.message
+                            {
+                                if let Ok(Some(doc)) = self.storage.get(*rid) {
+                                    if !doc.is_visible_to(&(*remote).into()) {
+                                        continue;
+                                    }
+                                }
+                            }
                             // Only send messages if we're a relay, or it's our own messages.
                             if relay || ann.node == local {
                                 self.outbox.write(peer, ann.into());
